@@ -19,6 +19,7 @@ mod c02;
 mod c11;
 mod c12;
 mod c12x;
+mod c12fs;
 mod c13;
 mod c09;
 mod c10;
